@@ -6,3 +6,5 @@ import Goat.Model.PrattGen
 import Goat.Spec.GoPrec
 import Goat.Lemmas.Pratt
 import Goat.Props.C05
+import Goat.Model.Num
+import Goat.Props.C04
